@@ -638,50 +638,89 @@ func (g *gen) ray(w *world, wild bool) string {
 	return fmt.Sprintf("GR %s %s %s %s %s %s", bits(f.x), bits(f.y), bits(f.z), bits(t.x), bits(t.y), bits(t.z))
 }
 
-// hug: a plane whose far edge lies one to three float32 steps below the grid's far border (after the grid has grown
-// towards negative coordinates the subtraction `edge - Min` rounds such an edge onto the border), followed by smaller
-// samples of the same plane, which merge into it
+// hug: a plane one of whose edges lies on, or one to three float32 steps to either side of, a border of the grid or of
+// one of its cells (the subtraction `edge - Min` rounds such an edge onto the border, and rounds differently once the
+// grid has grown), followed by samples of the same plane that merge into it: smaller ones, and ones that share the edge
 func (g *gen) hug(w *world) string {
 	r := g.rng
 	mn, mx := xyz(w.g.Min), xyz(w.g.Max)
-	below := func(v float32, k int) float32 {
-		for i := 0; i < k; i++ {
+	res := float32(w.g.Resolution)
+	nudge := func(v float32) float32 {
+		k := r.Intn(7) - 3
+		for ; k > 0; k-- {
+			v = math.Nextafter32(v, float32(math.Inf(1)))
+		}
+		for ; k < 0; k++ {
 			v = math.Nextafter32(v, float32(math.Inf(-1)))
 		}
 		return v
 	}
-	// centre and extent whose float32 sum is exactly the target edge
-	split := func(lo, target float32) (float32, float32) {
-		e := float32(0.25 + r.Float64()*float64(target-lo)/2)
+	// a target coordinate on an axis: the far border, the near border, or a cell border inside
+	target := func(lo, hi float32) float32 {
+		switch r.Intn(3) {
+		case 0:
+			return nudge(hi)
+		case 1:
+			return nudge(lo)
+		}
+		cells := int((hi - lo) / res)
+		if cells < 2 {
+			return nudge(hi)
+		}
+		return nudge(lo + float32(1+r.Intn(cells-1))*res)
+	}
+	// centre and extent whose float32 sum (high edge) or difference (low edge) is exactly the target
+	split := func(t float32, high bool) (float32, float32) {
+		e := float32(0.25 + r.Float64()*3)
 		for i := 0; i < 64; i++ {
-			c := target - e
-			if c+e == target && c-e >= lo {
+			c := t - e
+			if !high {
+				c = t + e
+			}
+			if (high && c+e == t) || (!high && c-e == t) {
 				return c, e
 			}
 			e = math.Nextafter32(e, 0)
 		}
-		return (lo + target) / 2, (target - lo) / 2
+		if high {
+			return t - 1, 1
+		}
+		return t + 1, 1
 	}
-	cx, ex := split(mn.x, below(mx.x, 1+r.Intn(3)))
-	cz, ez := split(mn.z, below(mx.z, 1+r.Intn(3)))
+	highX, highZ := r.Intn(2) == 0, r.Intn(2) == 0
+	tx, tz := target(mn.x, mx.x), target(mn.z, mx.z)
+	cx, ex := split(tx, highX)
+	cz, ez := split(tz, highZ)
 	switch r.Intn(3) {
-	case 0: // only x hugs the border
-		cz, ez = (mn.z+mx.z)/2, (mx.z-mn.z)/4
+	case 0: // only x hugs
+		cz, ez = (mn.z+mx.z)/2, float32(0.25+r.Float64()*2)
 	case 1: // only z
-		cx, ex = (mn.x+mx.x)/2, (mx.x-mn.x)/4
+		cx, ex = (mn.x+mx.x)/2, float32(0.25+r.Float64()*2)
 	}
-	if ex <= 0 || ez <= 0 || mx.x-mn.x < 2 || mx.z-mn.z < 2 {
+	if !(ex > 0) || !(ez > 0) || math.Abs(float64(cx))+float64(ex) > 63.5 || math.Abs(float64(cz))+float64(ez) > 63.5 {
 		return g.quad()
 	}
 	y := []float32{0, 0.5, 1.25}[r.Intn(3)]
-	mk := func(ex, ez float32) string {
+	mk := func(cx, cz, ex, ez float32) string {
 		return fmt.Sprintf("GI %s %s %s %s %s %s 0", bits(cx), bits(y), bits(cz), bits(ex), bits(0), bits(ez))
 	}
 	g.centres = append(g.centres, v3{cx, y, cz})
 	for i := 0; i < 1+r.Intn(3); i++ {
-		g.script = append(g.script, mk(ex*float32(0.3+r.Float64()*0.6), ez*float32(0.3+r.Float64()*0.6)))
+		if r.Intn(2) == 0 { // a smaller sample of the same plane
+			g.script = append(g.script, mk(cx, cz, ex*float32(0.3+r.Float64()*0.6), ez*float32(0.3+r.Float64()*0.6)))
+			continue
+		}
+		// a sample that shares the hugging edge: larger or smaller, its centre over the plane
+		cx2, ex2 := split(tx, highX)
+		cz2, ez2 := split(tz, highZ)
+		if math.Abs(float64(cx2-cx)) < float64(ex) && math.Abs(float64(cz2-cz)) < float64(ez) {
+			g.script = append(g.script, mk(cx2, cz2, ex2, ez2))
+		}
 	}
-	return mk(ex, ez)
+	if r.Intn(3) == 0 { // then something far away on the low side: the grid's origin moves under the plane
+		g.script = append(g.script, mk(cx-float32(8+r.Intn(20)), cz-float32(r.Intn(20)), 1, 1), mk(cx, cz, ex/2, ez/2))
+	}
+	return mk(cx, cz, ex, ez)
 }
 
 func (g *gen) region(w *world, wild bool) string {
